@@ -10,4 +10,5 @@ EXES = [
     {"name": "sched", "sources": ["harness/sched.cpp"]},
     {"name": "expr", "sources": ["harness/expr.cpp"]},
     {"name": "races", "sources": ["harness/races.cpp"]},
+    {"name": "bulk", "sources": ["harness/bulk.cpp"]},
 ]
